@@ -497,6 +497,12 @@ func genC07(tier string, seed uint64, emit func(string)) {
 	for _, h := range hostile {
 		emit(serveLine("-", [][]byte{append([]byte(h), reqS("PING")...)}, "r s:4f4b", "", ""))
 	}
+	// clients that stop reading their replies must not disturb a witness connection
+	for _, store := range []string{"double", "example"} {
+		for stalled := 1; stalled <= 3; stalled++ {
+			emit(fmt.Sprintf("stallw %s %d %d", store, stalled, 1+r.Intn(40)))
+		}
+	}
 	for i := 0; i < n; i++ {
 		var stream []byte
 		var argvs [][][]byte
